@@ -391,7 +391,7 @@ Proof.
       destruct (enter cfg t (hard (get_t s t)) s) as [s1 c]. destruct (run_items cfg body s1) as [[r s2] lg].
       destruct (spec_items body _) as [r2 lg2]. exact H.
     - cbn in W. cbn [run_item spec_item]. split4; auto using core_eq_refl.
-      assert (Hv : view_log (ntr s) [(kd, run_site s kd); (KSys, SDelivered (sys_who s))] = [(kd, delivered_of (ntr s) (run_site s kd))])
+      assert (Hv : view_log (ntr s) [(kd, run_site s kd); (KSys, SDelivered (sys_who s)); (KSys, SFinders (meta_finders s))] = [(kd, delivered_of (ntr s) (run_site s kd))])
         by (unfold view_log; destruct kd; try contradiction; reflexivity).
       rewrite Hv, (site_delivery s sp kd I R W). reflexivity.
     - cbn. split4; auto using core_eq_refl.
